@@ -136,6 +136,16 @@ def run(ctx):
     # ---- R3 errors give None --------------------------------------------------------------------------------------
     okn = any(t.op == "discr" and rel == "eq" and v == 0 and sr and t.args[0] is sr[0]["result"] for t, rel, v in fs) or \
         any(t.op == "is_variant" for t, rel, v in fs)
+    if not okn and sr and sr[0]["result"] is not None:
+        # the same test through a view of the result (`.ok()?`, `match`, `let else`): a dominating discriminant test on an
+        # enum whose selected alternative was created where share_recover's Ok was created
+        okalt = Q.variant(sr[0]["result"], 0)
+        oko = okalt[4] if okalt else frozenset()
+        for t, rel, v in fs:
+            if t.op == "discr" and rel == "eq" and t.args[0].op == "enum" and oko:
+                mine = [a for a in t.args[0].args[1] if a[0] == v]
+                if len(mine) == 1 and mine[0][4] and mine[0][4] <= oko:
+                    okn = True
     ctx.add("C17.R3", root + "#some-requires-recovery-ok", okn, "Some(..) must require that share_recover returned Ok", at)
     okc = any(t.op == "b64_valid" and rel == "eq" and v == 1 for t, rel, v in fs)
     if not okc:
